@@ -34,9 +34,12 @@
    expiries [lo, hi]: firing before lo is early, a generate_events pass at or
    after hi that does not fire it is a miss, an idle wait requested beyond hi
    is an oversleep.  For an interval timer lo = hi = arming time + interval.
-   For a datetime deadline D the statement only says that it "counts at
-   whole-second resolution": lo = D rounded down, hi = D rounded up to a whole
-   second (every reading of the phrase is admitted).
+   A datetime deadline D "counts at whole-second resolution": its sub-second
+   part is discarded, lo = hi = D rounded down to a whole second (the timer
+   must neither fire before that second nor be left waiting for the
+   microseconds of D).
+     k="stall"    the loop was run with full-length waits for a iterations and
+                  never came to rest (never asked for an untimed wait)
 
    "until it is unregistered, after which it never fires again": the timer is
    unregistered when unregister() is called on it (the documented first stage
@@ -89,6 +92,10 @@ Fail(P, ln) ==
     [] ln.k = "idle" ->
          IF \E t \in DOMAIN P.tm : P.tm[t].st = "live" /\ ln.now + ln.a > P.tm[t].hi
          THEN "C09.oversleep" ELSE ""
+    [] ln.k = "stall" ->
+         \* a pending timer that is never served although the loop goes round and
+         \* every wait lasts as long as the loop asked for
+         IF \E t \in DOMAIN P.tm : P.tm[t].st = "live" THEN "C09.stalled" ELSE ""
     [] ln.k = "end" ->
          IF Known(P, ln.t) /\ P.tm[ln.t].per = 0 /\ P.tm[ln.t].nf > 0 /\ ln.a = 1
          THEN "C09.not_removed" ELSE ""
@@ -98,7 +105,7 @@ Apply(P, ln) ==
   CASE ln.k = "cfg" -> [P EXCEPT !.sec = ln.a]
     [] ln.k = "create" -> SetTm(P, ln.t, NewTimer(ln.b, ln.a, ln.a, ln.now))
     [] ln.k = "createat" ->
-         SetTm(P, ln.t, NewTimer(ln.b, FloorS(ln.a, P.sec) - ln.now, CeilS(ln.a, P.sec) - ln.now, ln.now))
+         SetTm(P, ln.t, NewTimer(ln.b, FloorS(ln.a, P.sec) - ln.now, FloorS(ln.a, P.sec) - ln.now, ln.now))
     [] ln.k = "reset" /\ Known(P, ln.t) ->
          LET r  == P.tm[ln.t]
              il == IF ln.a >= 0 THEN ln.a ELSE r.ivlo
